@@ -356,9 +356,20 @@ def armour_msgs():
                      st.one_of(st.none(), st.none(), st.sampled_from(PAD_TARGETS[:10])))
 
 
+def _word_keys():
+    """(net, d, compressed) whose address happens to contain an upper-case word of the armour vocabulary ("END"); found
+    once by enumeration of small secret exponents and kept in gen/data_addr_words.json (about one key in 6000 qualifies)"""
+    import json
+    with open(os.path.join(REPO_DIR if False else os.path.dirname(os.path.dirname(os.path.abspath(__file__))), "gen", "data_addr_words.json")) as f:
+        table = json.load(f)
+    return [(e[2], e[0], e[1]) for word in sorted(table) for e in table[word] if e[2] in NETCODES]
+
+
 def s_armour():
-    return st.fixed_dictionaries({"net": st.sampled_from(NETCODES), "d": common.scalars(), "compressed": st.sampled_from([0, 1]),
-                                  "msg": armour_msgs()})
+    plain = st.fixed_dictionaries({"net": st.sampled_from(NETCODES), "d": common.scalars(), "compressed": st.sampled_from([0, 1]),
+                                   "msg": armour_msgs()})
+    worded = st.builds(lambda k, msg: {"net": k[0], "d": k[1], "compressed": k[2], "msg": msg}, st.sampled_from(_word_keys()), armour_msgs())
+    return common.weighted((9, plain), (1, worded))
 
 
 # ---------------------------------------------------------------------------------------------------------------
